@@ -4,6 +4,7 @@ Require Extraction.
 Require Import ExtrOcamlBasic.
 From Coq Require Import List NArith Strings.String.
 From V Require Import Base.Bytes Base.Res Gen.Tables Model.Escape Spec.EscapeSpec.
+From V Require Import Gen.Tagfilter Model.Tagfilter Spec.GfmFilter.
 Extraction Language OCaml.
 Set Extraction KeepSingleton.
 
@@ -23,4 +24,15 @@ Extraction "model.ml"
   EscapeSpec.no_pct_hex
   EscapeSpec.lex_start_tag
   EscapeSpec.utf8_valid
+  Tagfilter.tagfilter
+  Tagfilter.tagfilter_block
+  Tagfilter.html_block_payload
+  Tagfilter.html_inline_payload
+  GfmFilter.disallowed_at
+  GfmFilter.gfm_filter
+  GfmFilter.lt_escape_first
+  GfmFilter.any_disallowed
+  GfmFilter.disallowed_at_narrow
+  GfmFilter.gfm_filter_narrow
+  GfmFilter.lt_expansion
 .
